@@ -67,14 +67,23 @@ def gen_unit(args):
                 contracts=[], gen_time=0.0, feas_calls=0, stmts=0, degraded=[], anchor_drift=[])
 
 
-# z3 configurations tried in order (refutation portfolio); budgets are fractions of the
-# per-obligation timeout.  'sat' is only accepted from the default configuration.
+# z3 configurations tried in order (refutation portfolio).  The quick e-matching configurations get short fixed
+# slots (they either succeed at once or not at all); the default configuration and cvc5 get the per-obligation budget,
+# which is sized generously so that verdicts do not flip when all cores are busy.  'sat' is only accepted from the
+# default configuration.
 PORTFOLIO = [
-  ('z3(ematch,eager)', {'smt.mbqi': False, 'smt.qi.eager_threshold': 50.0, 'smt.qi.lazy_threshold': 200.0}, 0.15),
-  ('z3(ematch)', {'smt.mbqi': False}, 0.2),
-  ('z3(ematch,arith2)', {'smt.mbqi': False, 'smt.arith.solver': 2}, 0.2),
-  ('z3(ematch,seed3)', {'smt.mbqi': False, 'smt.random_seed': 3, 'smt.qi.eager_threshold': 100.0}, 0.2),
-  ('z3', {}, 1.0),
+  ('z3(ematch,eager)', {'smt.mbqi': False, 'smt.qi.eager_threshold': 50.0, 'smt.qi.lazy_threshold': 200.0}, 3000),
+  ('z3(ematch)', {'smt.mbqi': False}, 4000),
+  ('z3(ematch,seed1)', {'smt.mbqi': False, 'smt.random_seed': 1}, 5000),
+  ('z3(ematch,arith6)', {'smt.mbqi': False, 'smt.arith.solver': 6}, 5000),
+  ('z3(ematch,arith2)', {'smt.mbqi': False, 'smt.arith.solver': 2}, 4000),
+  ('z3(ematch,seed2)', {'smt.mbqi': False, 'smt.random_seed': 2}, 5000),
+  ('z3(ematch,seed3)', {'smt.mbqi': False, 'smt.random_seed': 3, 'smt.qi.eager_threshold': 100.0}, 4000),
+  ('z3(ematch,seed7)', {'smt.mbqi': False, 'smt.random_seed': 7, 'smt.arith.solver': 2, 'smt.qi.eager_threshold': 20.0}, 6000),
+  ('z3(ematch,seed11)', {'smt.mbqi': False, 'smt.random_seed': 11}, 8000),
+  ('z3(ematch,seed13)', {'smt.mbqi': False, 'smt.random_seed': 13, 'smt.arith.solver': 6}, 8000),
+  ('z3(ematch,seed17)', {'smt.mbqi': False, 'smt.random_seed': 17, 'smt.qi.eager_threshold': 30.0}, 8000),
+  ('z3', {}, None),
 ]
 
 
@@ -84,9 +93,9 @@ def solve_text(args):
   out = None
   reason = ''
   try:
-    for name, cfg, frac in PORTFOLIO:
+    for name, cfg, slot in PORTFOLIO:
       s = z3.Solver()
-      s.set('timeout', max(1000, int(timeout_ms * frac)))
+      s.set('timeout', int(slot if slot is not None else timeout_ms))
       for k, v in cfg.items():
         s.set(k, v)
       s.from_string(text)
@@ -232,7 +241,7 @@ def run_check(prop, tier, repo, jobs, seed, record_baseline=False):
   if not units:
     print('UNDECIDED property=%s no units' % prop)
     return 2
-  timeout_ms = 20000 if tier == 'quick' else 90000
+  timeout_ms = 40000 if tier == 'quick' else 120000
   recheck = (tier == 'thorough')
   with cf.ProcessPoolExecutor(max_workers=jobs) as pool:
     gens = list(pool.map(gen_unit, [(u, repo) for u in units]))
